@@ -10,8 +10,13 @@ checks, not_app = [], []
 for p in props:
     pid = p['id']
     if pid in claimed:
-        m = importlib.import_module('contracts.%s' % pid)
-        meta = m.META
+        import ast
+        tree = ast.parse(open(os.path.join(ROOT, 'contracts', pid + '.py')).read())
+        meta = None
+        for node in tree.body:
+            if isinstance(node, ast.Assign) and any(isinstance(t, ast.Name) and t.id == 'META' for t in node.targets):
+                meta = ast.literal_eval(node.value)
+        assert meta is not None, 'no literal META in contracts/%s.py' % pid
         checks.append({
             'property_id': pid,
             'quick_cmd': './check %s --tier quick' % pid,
